@@ -201,13 +201,27 @@ pub fn k_numeric<T: Real>(case: &Case) -> Outcome {
             Err(p) => Outcome::bad(format!("length-0 transform panicked on an empty buffer: {} @ {}", p.msg, p.loc)),
         };
     }
-    if is_zero_vec(&input) {
-        return Outcome::skip("zero input");
-    }
-    let out = match transform(&*fft, case.entry, &input) {
-        Ok(o) => o,
-        Err(p) => return Outcome::bad(format!("well-shaped call panicked: {} @ {}", p.msg, p.loc)),
+    // the output buffer of the two-buffer entry points starts out NaN-filled here only when a chunk is silent,
+    // so that "nothing was written" cannot pass for "the DFT of zeros is zero"
+    let any_silent = input.chunks(n).any(|ch| is_zero_vec(ch));
+    let out = if any_silent {
+        match transform_filled(&*fft, case.entry, &input, 0, Complex { re: T::of_f64(0.0), im: T::of_f64(0.0) }, fill_value(1)) {
+            Ok(o) => o,
+            Err(p) => return Outcome::bad(format!("well-shaped call panicked: {} @ {}", p.msg, p.loc)),
+        }
+    } else {
+        match transform(&*fft, case.entry, &input) {
+            Ok(o) => o,
+            Err(p) => return Outcome::bad(format!("well-shaped call panicked: {} @ {}", p.msg, p.loc)),
+        }
     };
+    if is_zero_vec(&input) {
+        // the DFT of the zero vector is the zero vector, exactly (a linear circuit of +,-,* on zeros)
+        return match out.iter().position(|c| c.re.to_f64() != 0.0 || c.im.to_f64() != 0.0) {
+            Some(j) => Outcome::bad(format!("all-zero input produced a non-zero/non-finite output: element {} is ({},{})", j, out[j].re, out[j].im)),
+            None => Outcome::held(false).label("input:all-zero"),
+        };
+    }
     let reference = reference_for::<T>(case, &input);
     let b = bound(n, T::EPS);
     // p[0] = 1 selects the C02 bound itself
@@ -215,6 +229,9 @@ pub fn k_numeric<T: Real>(case: &Case) -> Outcome {
     let mut worst = 0.0f64;
     for (ci, (o, r)) in out.chunks(n).zip(reference.chunks(n)).enumerate() {
         if is_zero_vec(&input[ci * n..(ci + 1) * n]) {
+            if let Some(j) = o.iter().position(|c| c.re.to_f64() != 0.0 || c.im.to_f64() != 0.0) {
+                return Outcome::bad(format!("silent (all-zero) chunk {} produced a non-zero/non-finite output: element {} is ({},{})", ci, j, o[j].re, o[j].im));
+            }
             continue;
         }
         let e = refdft::rel_l2(&to_pairs(o), r);
